@@ -4,10 +4,20 @@
 // be decided; what is proved is that the pass cannot panic, keeps every search on its field with its cast and case
 // flags and its kind, and returns a well-formed expression.
 
+// what rewrite_search does to one pattern text: an optional leading and an optional trailing `.*` are dropped
+// (an unanchored search for `.*X.*` finds what a search for `X` finds - the regex-language fact this pass relies on, assumed)
+pub open spec fn dotstar() -> Seq<char> { seq!['.', '*'] }
+pub open spec fn strip_head(t: Seq<char>) -> Seq<char> { if prefix_of(dotstar(), t) { t.skip(2) } else { t } }
+pub open spec fn strip_tail(t: Seq<char>) -> Seq<char> { if suffix_of(dotstar(), t) { t.take(t.len() - 2) } else { t } }
+pub open spec fn stripped(t: Seq<char>) -> Seq<char> { strip_tail(strip_head(t)) }
+pub open spec fn stripped_all(ts: Seq<Seq<char>>) -> Seq<Seq<char>> { Seq::new(ts.len(), |i: int| stripped(ts[i])) }
+
+// a rebuilt regex search: the recorded case flag is kept, and the regex (set) is either the old one or the one the regex
+// crate builds from the stripped pattern text(s) - same number, same order - WITH THAT SAME FLAG
 pub open spec fn same_shape(r: Search, s: Search) -> bool {
     match (r, s) {
-        (Search::Regex(_, i2), Search::Regex(_, i)) => i2 == i,
-        (Search::RegexSet(_, i2), Search::RegexSet(_, i)) => i2 == i,
+        (Search::Regex(r2, i2), Search::Regex(r1, i)) => i2 == i && (r2 == r1 || regex_of(stripped(regex_text(&r1)), i) == Some(r2)),
+        (Search::RegexSet(s2, i2), Search::RegexSet(s1, i)) => i2 == i && (s2 == s1 || rs_of(&s2, stripped_all(texts(regexset_patterns(&s1))), i)),
         _ => r == s,
     }
 }
@@ -64,4 +74,34 @@ pub proof fn lemma_rw_wf(r: Expression, e: Expression, ids: Ids)
         (Expression::Nested(f2, x2), Expression::Nested(f, x)) => { lemma_rw_wf(*x2, *x, ids); },
         _ => {},
     }
+}
+
+// the rewritten expression asks a document for exactly the keys the original asks for (C16); inside a nested block the same
+// holds for the block's body on the nested object (rw_rel relates the bodies, so this lemma applies to them as well)
+pub proof fn lemma_rw_asks(r: Expression, e: Expression, ids: Ids, k: Seq<char>)
+    requires rw_rel(r, e),
+    ensures asks(r, ids, k) == asks(e, ids, k),   // P:C16
+    decreases e,
+{
+    match (r, e) {
+        (Expression::BooleanGroup(o2, g2), Expression::BooleanGroup(o, g)) => {
+            assert forall|i: int| 0 <= i < g.len() implies asks(g2[i], ids, k) == asks(#[trigger] g[i], ids, k) by { lemma_rw_asks(g2[i], g[i], ids, k); }
+            if asks(r, ids, k) { let i = choose|i: int| 0 <= i < g2.len() && asks(#[trigger] g2[i], ids, k); assert(asks(g[i], ids, k)); }
+            if asks(e, ids, k) { let i = choose|i: int| 0 <= i < g.len() && asks(#[trigger] g[i], ids, k); assert(asks(g2[i], ids, k)); }
+        },
+        (Expression::BooleanExpression(l2, o2, r2), Expression::BooleanExpression(l, o, r1)) => {
+            lemma_rw_asks(*l2, *l, ids, k); lemma_rw_asks(*r2, *r1, ids, k);
+            lemma_rw_wf(*l2, *l, ids); lemma_rw_wf(*r2, *r1, ids);
+            if is_cmp(o) { lemma_rw_operand(*l2, *l); lemma_rw_operand(*r2, *r1); }
+        },
+        (Expression::Match(m2, x2), Expression::Match(m, x)) => { lemma_rw_asks(*x2, *x, ids, k); },
+        (Expression::Negate(x2), Expression::Negate(x)) => { lemma_rw_asks(*x2, *x, ids, k); },
+        _ => {},
+    }
+}
+
+pub proof fn lemma_rw_operand(r: Expression, e: Expression)
+    requires rw_rel(r, e),
+    ensures operand_key(r) == operand_key(e),
+{
 }
